@@ -88,14 +88,16 @@ class Rep:
     path_atom: int = 0
 
 
-def analyse(rep: Rep, params, ctx):
+def analyse(rep: Rep, params, ctx, traj=None):
     """Run the real pipeline on one representation and record its outputs."""
     import networkx as nx
     from gemdat.rdf import radial_distribution, radial_distribution_between_species
     from pymatgen.core import Structure
 
     out = {}
-    traj = gen.make_trajectory(rep.m, gen.species_objects(rep.names), rep.coords, time_step=rep.dt, metadata={'temperature': rep.temp})
+    if traj is None:
+        traj = gen.make_trajectory(rep.m, gen.species_objects(rep.names), rep.coords, time_step=rep.dt, metadata={'temperature': rep.temp})
+    out['_traj'] = traj
     sites = Structure(lattice=traj.get_lattice(), species=['Li'] * len(rep.site_frac), coords=rep.site_frac, labels=list(rep.labels))
     tr = traj.transitions_between_sites(sites=sites, floating_specie='Li', site_radius=rep.arg, site_inner_fraction=rep.f)
     out['states'] = np.asarray(tr.states).copy()
@@ -310,7 +312,9 @@ def run_unit(unit, rng, ctx):
         k1_base = None
         for name, rep, amap_, smap_, shift, site_perm in reps:
             try:
-                other = analyse(rep, params, ctx)
+                # a representation that differs only in the site set is analysed on the SAME trajectory
+                # object (state left behind by the first analysis must not leak into the second)
+                other = analyse(rep, params, ctx, traj=base['_traj'] if site_perm and unit['i'] % 2 == 0 else None)
             except ValueError as exc:
                 if 'need at least one array' in str(exc):
                     # the transformed run sees no events although the original has some -> states must differ
